@@ -283,6 +283,11 @@ def gen_net(rng, idx, profile):
         import gen_ranksweep
 
         return gen_ranksweep.c01_net(rng, idx, make_builder)
+    if profile == "resizecasc":
+        # round 6: 2x resize -> stride {3, 2, 1} consumer in one cascade (harness/gen_resizecasc.py)
+        import gen_resizecasc
+
+        return gen_resizecasc.c01_net(rng, idx, make_builder)
     if profile == "ssmask":
         # STRIDED_SLICE mask algebra on ranks 1-4 (harness/gen_ssmask.py)
         import gen_ssmask
@@ -900,6 +905,10 @@ def corpus_net(rng, name):
 def gen_opts(rng, profile):
     import pipe_common
 
+    if profile == "resizecasc":
+        import gen_resizecasc
+
+        return gen_resizecasc.c01_opts(rng)
     opts = pipe_common.sample_config(rng, "cascade" if profile == "cascade" else "mixed")
     if profile == "cascade" and "--arena-cache-size" not in opts and rng.random() < 0.6:
         # a small cache makes the Performance scheduler stripe as well
@@ -1384,6 +1393,7 @@ def main():
                                                               "tconv_stride1_same_even", "tconv_stride1_valid", "pad_folded_conv", "shared_fold_same_valid",
                                                               "unpack_negative_axis", "slice_size_minus1", "transpose_rank2_identity", "slice_end_clamped", "fc_keep_dims_batch", "sqdiff_broadcast_first")]
     # round-5 families first (so that the wall-clock budget of the quick tier never cuts them)
+    jobs += [(ck.seed, i, "resizecasc", k_inputs) for i in range(384 if ck.thorough else 48)]      # round 6 (gen_resizecasc.py)
     jobs += [(ck.seed, i, "ssmask", k_inputs) for i in range(2400 if ck.thorough else 300)]
     jobs += [(ck.seed, i, "ranks", k_inputs) for i in range(3024 if ck.thorough else 378)]      # 21 kinds x 6 x 3 axis variants
     jobs += [(ck.seed, i, PROFILES[i % len(PROFILES)], k_inputs) for i in range(n)]
